@@ -29,7 +29,12 @@ type finding struct {
 
 func (f finding) violation() bool { return f.Kind != "reject" && f.Kind != "" }
 
-func (f finding) head() string { return f.Kind + ":" + f.Class }
+func (f finding) head() string {
+	if f.Kind == "" {
+		return ""
+	}
+	return f.Kind + ":" + f.Class
+}
 
 // compile-error classes, most root-cause-like first: a unit is attributed to the first class present.
 var compileClasses = []struct {
